@@ -130,7 +130,9 @@ def num_edit(rnd, spec, targets=None):
         u2, f = ALT_UNITS[old[2]]
         new = ["q", old[1] * f, u2]
     else:
-        ks = list(FACTORS); rnd.shuffle(ks)
+        # builder parameters feed derived durations (tokens x latency, video length): moderate factors only, so that histories do not
+        # wander into requests lasting thousands of hours (thousands of hour-shift terms per job)
+        ks = list(FACTORS if O[n]["cls"] in NUM else [0.5, 2, 1.37]); rnd.shuffle(ks)
         new = None
         for k in ks:
             cand = ["q", old[1] * k if old[1] != 0 else rnd.choice([1.37, 0.37]), old[2]]
